@@ -279,6 +279,8 @@ func c01(r *Run) {
 
 func c02(r *Run) {
 	w := r.W
+	// the builder skips transactions Consume rejects and keeps packing: agreement on consumption rests on Consume being all-or-nothing
+	defer r.importRules(c12, "C12.R3")
 	r.rule("C02.R1", "K12", "builder and verifier write the same metadata keys with the same encodings", 7)
 	r.rule("C02.R2", "K5", "one timestamp / height / root / fee manager feeds every consumer in the builder", 10)
 	r.rule("C02.R3", "K1", "Commit, block append and result append are together, after PreExecute/Execute succeeded and Consume accepted", 4)
@@ -496,6 +498,40 @@ func c02(r *Run) {
 			rv, rb := role(vc[0]), role(bc[0])
 			r.check(rv == rb && !strings.Contains(rv, "?"), "C02.R4", short(callee)+":argument-roles", r.at(w, bc[0]), rv, "argument roles differ between verifier ("+rv+") and builder ("+rb+")")
 		}
+	}
+
+	// R6: the builder task's view storage holds a key exactly when the parent state has it (as the verifier's prefetched map does):
+	// cache hits contribute only entries marked as existing, fresh reads only successful reads; not-found is cached as absent.
+	r.rule("C02.R6", "K6", "builder view storage = parent value or absence (cache hit: only existing entries; miss: only successful reads; not-found cached as absent)", 4)
+	gv := "(ago/x/merkledb.Trie).GetValue(fv:parentView, fv:ctx, []byte(*))"
+	nStore := 0
+	for _, e := range findEffects(lit, "mapupdate makemap(map[string][]byte)[*] = *") {
+		nStore++
+		switch {
+		case glob("* = fv:cache[*]#0.v", e.Str):
+			r.check(hasMatch(e.Conds(), "fv:cache[*]#1") && hasMatch(e.Conds(), "fv:cache[*]#0.exists"), "C02.R6", "task:cache-hit-only-existing", r.at(w, e.Ins), "", "a key cached as absent from the parent state is handed to the transaction as present: {"+strings.Join(e.Conds(), " ; ")+"}")
+		case glob("* = "+gv+"#0", e.Str):
+			r.check(hasMatch(e.Conds(), "!errors.Is("+gv+"#1, ago/database.ErrNotFound)") && hasMatch(e.Conds(), gv+"#1 == nil"), "C02.R6", "task:fresh-read-only-on-success", r.at(w, e.Ins), "", "a failed or not-found parent read is stored as a value")
+		default:
+			r.bad("C02.R6", "task:storage-source", r.at(w, e.Ins), "the task's view storage is filled from something other than the cache or the parent view: "+e.Str)
+		}
+	}
+	if nStore < 2 {
+		r.missing("C02.R6", "task:storage-writes", "expected the cache-hit and fresh-read stores into the task's storage map")
+	}
+	nf := findEffects(lit, "store alloc(complit).exists = false")
+	r.check(len(nf) == 1 && hasMatch(nf[0].Conds(), "errors.Is("+gv+"#1, ago/database.ErrNotFound)"), "C02.R6", "task:not-found-cached-as-absent", w.rel(lit.Pos()), "", "a not-found parent read is not cached as absent")
+	exs := findEffects(lit, "store alloc(complit).exists = true")
+	r.check(len(exs) == 1 && hasMatch(exs[0].Conds(), gv+"#1 == nil"), "C02.R6", "task:found-cached-as-present", w.rel(lit.Pos()), "", "a successful parent read is not cached as present")
+	// read errors other than not-found abort the task
+	for _, c := range callsTo(lit, func(n string) bool { return strings.HasSuffix(n, "merkledb.Trie).GetValue") }) {
+		okk := false
+		for _, o := range returnOutcomes(lit) {
+			if o.ErrTerm == term(c.(*ssa.Call))+"#1" && hasMatch(o.Conds, "!errors.Is(*") {
+				okk = true
+			}
+		}
+		r.check(okk, "C02.R6", "task:read-error-returned", r.at(w, c), "", "a parent read error other than not-found is not returned by the task")
 	}
 
 	// R5
